@@ -238,13 +238,14 @@ def q_of(v):
 def _parse_coq_value(out):
     """Parse `= [[1; -2]; [3]] : list (list Z)` outputs (one per Eval) into python lists."""
     vals = []
+    out = out.replace("%list", "")
     for m in re.finditer(r"(?s)=\s*(\[.*?\])\s*\n\s*:\s*list", out):
-        txt = m.group(1).replace(";", ",").replace("%Z", "").replace("\n", " ")
+        txt = m.group(1).replace(";", ",").replace("%bigZ", "").replace("%Z", "").replace("\n", " ")
         vals.append(ast.literal_eval(txt))
     return vals
 
 
-def run_cases(pid, header, cases, shard=250, timeout=900, workers=16):
+def run_cases(pid, header, cases, shard=250, timeout=900, workers=16, rtype="bigZ"):
     """Evaluate Gallina expressions (each of type `list Z`) with vm_compute.
 
     `cases` is a list of Coq expressions; returns a list of python int lists in order.
@@ -258,13 +259,14 @@ def run_cases(pid, header, cases, shard=250, timeout=900, workers=16):
         body = ";\n  ".join(f"({c})" for c in cases[k:k + shard])
         with open(fn, "w") as f:
             f.write(header + "\nSet Printing Width 2000000000.\nSet Printing Depth 2000000000.\n"
-                    "Open Scope Z_scope.\n"
-                    f"Definition results : list (list Z) := [\n  {body}\n].\n"
+                    + ("Open Scope Z_scope.\n" if rtype == "Z" else
+                       "From Bignums Require Import BigZ.\nOpen Scope bigZ_scope.\n") +
+                    f"Definition results : list (list {rtype}) := [\n  {body}\n].\n"
                     "Eval vm_compute in results.\n")
         files.append(fn)
 
     def one(fn):
-        rc, out, dt = sh(["bash", "-c", "ulimit -s unlimited; exec coqc " +
+        rc, out, dt = sh(["bash", "-c", "ulimit -s 1000000; exec coqc " +
                           " ".join(COQFLAGS) + " " + fn], cwd=COQ, timeout=timeout)
         return fn, rc, out
 
@@ -381,6 +383,15 @@ class Report:
         return 1 if n_viol else 0
 
 
+def as_list(found):
+    """search() may return one (key, what, replay) triple or a list of them."""
+    if not found:
+        return []
+    if isinstance(found, tuple) and len(found) == 3 and isinstance(found[0], str):
+        return [found]
+    return list(found)
+
+
 def handle_proof(rep: Report, pid, search=None, extra_targets=()):
     """Step 2 of the pipeline.  On failure runs `search()` (property-level failing-input search
     on the implementation) and files a violation either way."""
@@ -399,8 +410,8 @@ def handle_proof(rep: Report, pid, search=None, extra_targets=()):
     log(f"[{pid}] prove: BROKEN at {pr['failed_at']}\n{pr['log'][-1500:]}")
     found = search() if search else None
     if found:
-        key, what, replay = found
-        rep.violation(key, what, replay, True)
+        for key, what, replay in as_list(found):
+            rep.violation(key, what, replay, True)
     else:
         rep.violation(f"{pid}:proof-broken:{pr['failed_at']}",
                       f"proof obligation no longer checks at {pr['failed_at']}",
